@@ -343,7 +343,12 @@ func mutAll(repo, outDir string, only string) {
 	par := 12
 	fmt.Sscanf(os.Getenv("MUT_PAR"), "%d", &par)
 	sem := make(chan struct{}, par)
+	lo, hi := 0, len(muts)
+	fmt.Sscanf(os.Getenv("MUT_RANGE"), "%d:%d", &lo, &hi)
 	for i, m := range muts {
+		if i < lo || i >= hi {
+			continue
+		}
 		wg.Add(1)
 		go func(i int, m mutant) {
 			defer wg.Done()
